@@ -42,7 +42,8 @@ ALL_FEATURES = [
     'seq', 'set', 'choice', 'seqof', 'setof', 'of_size',
     'optional', 'default', 'ext', 'ext_groups', 'refs', 'recursion',
     'imports', 'own_tags', 'big_tags', 'class_tags', 'ext_implied',
-    'components_of', 'big_sizes', 'nested_inline', 'top_tags'
+    'components_of', 'big_sizes', 'nested_inline', 'top_tags',
+    'common_names'
 ]
 
 
@@ -670,9 +671,10 @@ class Gen(object):
         count = rng.randint(0 if rng.random() < 0.05 else 1,
                             self.max_members)
         members = []
+        used = set()
 
         for _ in range(count):
-            members.append(self.gen_member(depth))
+            members.append(self.gen_member(depth, used=used))
 
         additions = []
         has_ext = self.has('ext') and rng.random() < 0.4
@@ -680,17 +682,34 @@ class Gen(object):
         if has_ext:
             for _ in range(rng.choice([0, 1, 1, 2, 3])):
                 if self.has('ext_groups') and rng.random() < 0.4:
-                    group = [self.gen_member(depth, in_addition=True)
+                    group = [self.gen_member(depth, in_addition=True,
+                                             used=used)
                              for _ in range(rng.choice([1, 2, 3]))]
                     additions.append(group)
                 else:
-                    additions.append(self.gen_member(depth, in_addition=True))
+                    additions.append(self.gen_member(depth, in_addition=True,
+                                                     used=used))
 
         return members, additions, has_ext
 
-    def gen_member(self, depth, in_addition=False):
+    def gen_member(self, depth, in_addition=False, used=None):
         rng = self.rng
         name = _ident(rng, rng.choice(['a', 'b', 'm', 'fld']), self.next())
+
+        # Real specifications reuse member names all over the place (id,
+        # value, ...), and the compilers cache compiled types per (type
+        # name, member name).  `used` holds the names taken in this
+        # component list.
+        if self.has('common_names') and used is not None \
+                and rng.random() < 0.5:
+            pool = [n for n in ('id9', 'value9', 'm9', 'data9', 'flag9')
+                    if n not in used]
+
+            if pool:
+                name = rng.choice(pool)
+
+        if used is not None:
+            used.add(name)
         modifier = ''
         roll = rng.random()
         optional = False
